@@ -1,7 +1,7 @@
 """C16 - Rendering depends only on current content and width, not on render history."""
 import os
 from harness.props.common import *
-from harness.gen.trees import gen_tree, gen_ops
+from harness.gen.trees import gen_tree, gen_ops, gen_column
 
 THEOREM_NOTE = ("Props/C16.lean: render(t in any object state, w) = render(t with all state forgotten, w) for every widget tree and width; render keeps "
                 "the contents; corollaries: render twice, other width in between, add after render = build from scratch")
@@ -24,6 +24,11 @@ def generate(rnd, tier):
             ops.insert(k, ["set_kp", rnd.choice([None, ["", ") ", rnd.choice([1, 0, 5, 10])], ["[", "] ", 1], ["", ") ", 1]])])
             ops.append(["render", ops[-1][1] if ops[-1][0] == "render" else 20])
         cases.append(with_cc({"op": "tree", "tree": t, "ops": ops}))
+    # kept ColumnWidget objects (columns of widgets, with and without a column width) rendered at widths in turn
+    for _ in range(N // 5):
+        c = gen_column(rnd)
+        if len(c["widths"]) == 1: c["widths"] = c["widths"] * 2
+        cases.append(with_cc(c))
     return cases
 
 
@@ -38,6 +43,17 @@ compare = tree_compare
 
 def monitor(case, obs):
     from harness.impl.render import build, obs as observe, err_name
+    if case["op"] == "column":
+        from harness.impl.render import build_column
+        for k, w in enumerate(case["widths"]):
+            c = build_column(case)
+            try:
+                c.render(w); fresh = observe(c)
+            except Exception as e:
+                fresh = {"err": err_name(e)}
+            if obs[k].get("err") != fresh.get("err") or obs[k].get("lines") != fresh.get("lines"):
+                return "render #%d at width %d on the kept ColumnWidget gives %r, a freshly built equal one gives %r" % (k, w, obs[k], fresh)
+        return None
     # fresh tree = the same spec with the adds applied, rendered once at that width
     spec = case["tree"]; k = 0
     import copy
@@ -71,7 +87,9 @@ def monitor(case, obs):
     return None
 
 
-def nontrivial(case, obs): return sum(1 for o in case["ops"] if o[0] == "render") >= 2 and case["tree"][0] in ("list", "window")
+def nontrivial(case, obs):
+    if case["op"] == "column": return len(case["widths"]) >= 2 and any(items for _cw, items in case["cols"])
+    return sum(1 for o in case["ops"] if o[0] == "render") >= 2 and case["tree"][0] in ("list", "window")
 def outcome(case, obs): return "err" if any("err" in o for o in obs) else "ok"
 
 
